@@ -26,6 +26,16 @@ CLAIMS = {
          "TOML/serde layer, include cycles and file I/O are outside (not_applicable parts listed in DESIGN.md C19). fmt::format stubbed where message text is irrelevant.", "5 C19"),
 }
 NA = {
+ 'C02': "not yet claimed: storage::write_file on the POSIX file model has not reached a solver verdict (see DESIGN.md C02)",
+ 'C03': "request_certificate as a whole did not reach a solver verdict within reach of Kani/CBMC (async state machine + heap): no sound check, see DESIGN.md section 4",
+ 'C04': "not yet claimed: JWS construction goes through serde_json/base64/format! on symbolic strings, which did not converge; key/algorithm binding and signature width are decided under C15",
+ 'C07': "not yet claimed: see DESIGN.md C07",
+ 'C10': "not yet claimed: hooks::call / Config::get_hook did not reach a solver verdict (hashbrown + Hook clones exceed 20 GB)",
+ 'C11': "not yet claimed: see DESIGN.md C11",
+ 'C12': "concurrency: Kani/CBMC has no model of interleaved tasks; the single-task lock-discipline substitute depends on the flow harness, which did not converge",
+ 'C16': "tacd's observable behaviour is a TLS handshake produced by OpenSSL through FFI over a socket; no Rust-side logic to execute symbolically",
+ 'C17': "process survival under connection histories (threads, sockets, OpenSSL accept, panic=abort): outside what Kani/CBMC can model",
+ 'C20': "the subject is a TOML file of shell commands run as external processes against a validating CA: no code of the repository to execute symbolically",
 }
 def main():
     checks = []
